@@ -1,8 +1,13 @@
 package interp
 
+// Summaries of pure stdlib classifiers on the hot path of byte scanners:
+// one boolean term instead of a fork per table case. Valid for ASCII
+// arguments (r < 0x80); anything else makes the path inconclusive. Each is
+// validated exhaustively against the interpreted table code by the engine
+// self-test (harness T00, entry "classifiers").
+
 import (
 	"go/types"
-	"strings"
 )
 
 var symExternals = map[string]externalFn{}
@@ -16,17 +21,40 @@ func anySym(args []value) bool {
 	return false
 }
 
+func asciiOnly(r symInt, what string) {
+	u := resize(symInt{r.t, types.Uint32}, types.Uint32)
+	if !X.decide("(bvult " + u.t + " " + bvc(0x80, 32) + ")") {
+		panic(unsupported(what + " beyond ASCII"))
+	}
+}
+
+func inRange(r symInt, lo, hi uint64) string {
+	w := width(r.k)
+	u := symInt{r.t, types.Uint32}
+	_ = u
+	return "(and (bvuge " + r.t + " " + bvc(lo, w) + ") (bvule " + r.t + " " + bvc(hi, w) + "))"
+}
+
 func init() {
-	// Summary of unicode.IsSpace for Latin-1 (validated against the table).
-	symExternals["unicode.IsSpace"] = func(fr *frame, args []value) value {
-		r := args[0].(symInt)
+	S := func(name string, f func(r symInt) string) {
+		symExternals[name] = func(fr *frame, args []value) value {
+			IntrinsicHits["summary:"+name]++
+			r := args[0].(symInt)
+			asciiOnly(r, name)
+			return symBool{X.share(f(r), "Bool")}
+		}
+	}
+	S("unicode.IsSpace", func(r symInt) string {
 		var alts []string
-		for _, c := range []uint64{9, 10, 11, 12, 13, 32, 0x85, 0xA0} {
+		for _, c := range []uint64{9, 10, 11, 12, 13, 32} {
 			alts = append(alts, "(= "+r.t+" "+bvc(c, width(r.k))+")")
 		}
-		if !X.decide("(bvule " + resize(symInt{r.t, types.Uint32}, types.Uint32).t + " " + bvc(0xFF, 32) + ")") {
-			panic(unsupported("unicode.IsSpace beyond Latin-1"))
-		}
-		return symBool{"(or " + strings.Join(alts, " ") + ")"}
-	}
+		return orTerms(alts)
+	})
+	S("unicode.IsLetter", func(r symInt) string {
+		return orTerms([]string{inRange(r, 'A', 'Z'), inRange(r, 'a', 'z')})
+	})
+	S("unicode.IsDigit", func(r symInt) string { return inRange(r, '0', '9') })
+	S("unicode.IsUpper", func(r symInt) string { return inRange(r, 'A', 'Z') })
+	S("unicode.IsLower", func(r symInt) string { return inRange(r, 'a', 'z') })
 }
